@@ -70,7 +70,7 @@ def run_lifetimes(tier, seed):
     results = [mc("vec", 8 if deep else 7, False), mc("file", 8 if deep else 7, False)]
     # every history of <= 4 calls is replayed (all of them: rare orders such as "the owned handle outlives every arena
     # value" are a handful among tens of thousands); thorough adds a sample of the histories of 5 calls
-    emit = [mc("vec", 4, True), mc("file", 4, True)]
+    emit = [mc("vec", 4, True), mc("file", 4, True), mc("file_ro", 5, True), mc("file_cro", 5, True)]
     emit5 = [mc("vec", 5, True), mc("file", 5, True)] if deep else []
     for r in results + emit + emit5:
         if r["rc"] != 0:
@@ -81,7 +81,7 @@ def run_lifetimes(tier, seed):
         if r in emit5 and len(ds) > 20000:
             rng.shuffle(ds)
             ds = ds[:20000]
-        backends = ["file"] if r["backend"] == "file" else ["vec", "anon"]
+        backends = [r["backend"]] if r["backend"].startswith("file") else ["vec", "anon"]
         for i, ops in enumerate(ds):
             drivers.append({"id": "h%d:%s:%d" % (5 if r in emit5 else 4, r["backend"], i),
                             "cfg": {"flavor": ["sync", "unsync"][i % 2], "backend": backends[(i // 2) % len(backends)], "cap": 256,
